@@ -23,6 +23,7 @@ type LoopSpec struct {
 	Unroll    int
 	HasUnroll bool
 	Invs      []*Clause
+	Exits     []*Clause // `exit` clauses: hold whenever the loop is left from inside its body (return, break)
 	Steps     []*Clause // `step` clauses: hold at every back edge, relating the iteration's start to its end
 	Decreases *Clause
 	Havoc     []string // names of extra state to havoc (informational)
@@ -335,7 +336,7 @@ func ParseContractFile(path string) (*PkgContracts, error) {
 				case "loop":
 					fs := strings.Fields(s.text)
 					if len(fs) < 2 {
-						return nil, fmt.Errorf("%s:%d: loop K unroll N | invariant E | step E | decreases E", path, s.line)
+						return nil, fmt.Errorf("%s:%d: loop K unroll N | invariant E | step E | exit E | decreases E", path, s.line)
 					}
 					k, err := strconv.Atoi(fs[0])
 					if err != nil {
@@ -367,6 +368,12 @@ func ParseContractFile(path string) (*PkgContracts, error) {
 							return nil, fmt.Errorf("%s:%v", path, err)
 						}
 						ls.Steps = append(ls.Steps, c)
+					case "exit":
+						c, err := parseClause(restTxt, s.line)
+						if err != nil {
+							return nil, fmt.Errorf("%s:%v", path, err)
+						}
+						ls.Exits = append(ls.Exits, c)
 					case "decreases":
 						c, err := parseClause(restTxt, s.line)
 						if err != nil {
